@@ -12,7 +12,9 @@ CLAIMED = {
              "(thorough 9) on U55 and U65 limits with an arbitrary conflict relation (free Boolean per op pair) and checked "
              "against a two-queue hardware monitor; a one-step inductive variant from arbitrary outstanding lists extends it to "
              "any history length; RangeSet/MemoryAccessSet conflict detection is shown equal to byte overlap for symbolic ranges; calc_blockdep stays in "
-             "[0, MAX] and is 0 whenever the previous kernel reads SHRAM bytes (its lookup table) that the current kernel overwrites.",
+             "[0, MAX] and is 0 whenever the previous kernel reads SHRAM bytes (its lookup table) that the current kernel overwrites; the SHRAM bytes a "
+             "kernel is declared to write cover the layout its block configuration uses; ArchitectureFeatures.get_ifm_block_size (the job input "
+             "volume the BLOCKDEP analysis assumes) covers the receptive field of an OFM block per axis for symbolic kernels, strides and blocks.",
         note="Trusted: z3, symx proxies, the two-queue hardware model restated from the property, stubs replacing register "
              "generation/blockdep in layer 1. Outside: whether a non-zero BLOCKDEP is safe under NPU block timing; streams of compiled networks.",
         technique="dynamic symbolic execution of the real Python functions over z3 proxies (symx), bounded; counterexample replay",
@@ -34,7 +36,8 @@ CLAIMED = {
              "n in [0, 2^25] for each of the 6 accelerators, so one query family covers every length: COP1 tag, config action, config and "
              "id words against an independent product table, NOP padding to a 16-byte boundary, declared 24-bit length == n, total size, "
              "and VelaError exactly for n >= 2^24; plus word identity/little-endian order for symbolic 32-bit words (n <= 4) and the "
-             "public npu_create_driver_payload entry.",
+             "public npu_create_driver_payload entry; the generator's own 16 MiB guard (generate_command_stream with the commands of earlier operations "
+             "abstracted to a symbolic word count) rejects exactly the streams of 2^22 words or more.",
         note="Trusted: z3, symx proxies, the struct.pack('<nI') model used in symbolic mode (replay uses the real struct), the product table "
              "(MACs/SHRAM per accelerator) restated from public Ethos-U data. Outside: command_stream tensors inside written files.",
         technique="dynamic symbolic execution of the real Python functions over z3 proxies (symx), symbolic stream length; counterexample replay",
@@ -46,7 +49,9 @@ CLAIMED = {
              "and stripe [a,b) (SAME/VALID/EXPLICIT, stride 1..3, striped and un-striped, rows and columns, x2 upscaling coverage); "
              "get_ifm_area_required vs rows read; and the REAL generate_high_level_commands_for_sched_op run on a symbolic-height 2-op "
              "cascade (stand-in schedule objects): stripes partition the OFM, every row a consumer stripe reads has been produced and "
-             "not yet overwritten in a rolling buffer of the height rolling_buffer_shape() gives.",
+             "not yet overwritten in a rolling buffer of the height rolling_buffer_shape() gives; Scheduler.propose_minimal_schedule / "
+             "propose_schedule_striping on operator chains with symbolic strides: producer stripes cover the consumer's stride and nearest-upscaling "
+             "operators only get even stripe heights (the assumption of the x2 upscaling lemma).",
         note="Trusted: z3, symx proxies, the hardware-side rule that the NPU derives the valid IFM extent from OFM size, kernel, stride "
              "and pads (DESIGN §3 C10), stand-in schedule objects. Bounds: H<=64 (thorough 4096), kernel<=8 (16), cascade height<=40, "
              "<=4 consumer / <=12 producer stripes. Outside: scheduler-chosen stripe sequences of real networks, exact pad semantics "
@@ -75,11 +80,15 @@ CLAIMED = {
              "semantics modelled and validated differentially); multiply_by_quantized_multiplier, exp_on_interval and exp_on_negative_values "
              "compositionally (proven leaf multiply as a shared uninterpreted function with its magnitude lemma); each entry of the "
              "leaky-ReLU/PReLU table and each folded Quantize constant against the TFLite reference arithmetic for symbolic multipliers, "
-             "zero points and alpha.",
+             "zero points and alpha; each checked entry of the hard-swish table against the TFLite reference recipe (both multipliers symbolic where the "
+             "entry saturates or shifts are small; one multiplier symbolic and the other enumerated in the realistic unsaturated regime); the "
+             "scale handed to quantise_scale by the Quantize folding; the function tabulated for tanh/sigmoid; two lookup tables share an "
+             "equivalence id (one copy in the constants region) exactly when all their values are equal (hash() modelled for ints/tuples).",
         note="Trusted: z3 (BV/UF), symx NumPy-scalar proxies (differentially validated by symx.selfcheck), gemmlowp/TFLite definitions "
              "restated on bit-vectors. Quick tier abstracts the 32x32 product of srm32 to a shared uninterpreted function (exact multiplier "
-             "in thorough). Outside: sigmoid/tanh/exp tables built from math.tanh/exp (transcendental), int16 interpolation tables, "
-             "the hard-swish table body.",
+             "in thorough). Outside: the values of sigmoid/tanh/exp tables built from math.tanh/exp (transcendental; the tabulated function is observed "
+             "instead), int16 interpolation tables, hard-swish entries with BOTH multipliers symbolic in the unsaturated regime (the solver does not "
+             "finish; covered with one multiplier enumerated).",
         technique="dynamic symbolic execution of the real Python functions over z3 bit-vector proxies (symx); compositional uninterpreted-function summaries; counterexample replay",
         design="DESIGN.md §3 C19"),
     "C18": dict(
@@ -89,7 +98,8 @@ CLAIMED = {
              "in child and parent, and a symbolic arena cache size in child/parent/CLI (defaults, CLI override, Sram->OnChipFlash remap, every "
              "validation error); missing sections vs internal-default; the real vela.main() driven up to the construction of the architecture "
              "object for all combinations of --config kinds / --system-config / --memory-mode with the file system answered by a symbolic Boolean "
-             "(Dir/file.ini resolved to the bundled directory and that path handed on, unreadable file rejected, selections never replaced); and "
+             "(Dir/file.ini resolved to the bundled directory - absolute, with main() started from a different working directory than the import - and that "
+             "path handed on, unreadable file rejected, selections never replaced); and "
              "the value main() hands over when --arena-cache-size is absent, extracted from main()'s AST on every run.",
         note="Trusted: z3, symx proxies, the ConfigParser stand-in (has_section/has_option/get), OPTIONS.md as the source of the rules. "
              "Outside: the file system itself and INI parsing, inherit cycles of length >= 2. "
@@ -112,17 +122,19 @@ CLAIMED = {
         design="DESIGN.md §3 C15"),
     "C06": dict(
         text="Bounded solver verdict on the real register-level generator through its public entry point: generate_register_command_stream on "
-             "two-operation lists whose operations share a template (conv with 1 or 2 cores, average pool with explicit rescale, DMA) and "
-             "differ in a group of symbolic, independent fields (40-bit base addresses, weight/scale ranges, tiles, zero points, pads, regions, "
-             "OFM scale/shift, DMA source/destination/length/regions), so that every register of the group holds an arbitrary previous value "
+             "two-operation lists whose operations share a template (conv with 1 or 2 cores, depthwise, pooling, elementwise, DMA) and "
+             "differ in a group of symbolic or enumerated, independent fields (40-bit base addresses, weight/scale ranges incl. fewer ranges than cores, "
+             "tiles, zero points, pads, regions, kernel size/stride/dilation/traversal, data types/layouts/rounding/upscaling (precision words), "
+             "feature-map shapes with default strides of both layouts, explicit strides, activation function/clamp/LUT index, pooling and elementwise "
+             "sub-operation, IFM2 address/broadcast/scalar/operand order, explicit OFM/OPA/OPB scaling, DMA source/destination/length/regions/channel/mode), so that every register of the group holds an arbitrary previous value "
              "when the second operation is generated. A reference decoder tracks the register file over the emitted words and at each NPU_OP "
              "word requires every direct register to hold that operation's value - written or elided - including address/shift bits in the "
              "command parameter, with no truncation; alignment/length errors exactly when the hardware rule is broken; one op word per "
              "operation; exactly one STOP as the last word.",
         note="Trusted: z3, symx proxies, my reference register map/decoder (cmd0 = 16-bit parameter, cmd1 = 32-bit payload + parameter bits). "
              "calc_blockdep is stubbed to 0 (C04) and the tile group runs with empty access sets. Outside: lists longer than two operations "
-             "(covered per register by the arbitrary-previous-value argument), cross-group elision coupling, stride and SHRAM-layout registers "
-             "(derived values; C15), compiled-network streams.",
+             "(covered per register by the arbitrary-previous-value argument), cross-group elision coupling, SHRAM-layout registers "
+             "(C15) and BLOCKDEP (C04), float-derived scaling registers (C09), compiled-network streams. The kernel/shape groups use the template's SHRAM layout.",
         technique="dynamic symbolic execution of the real Python functions over z3 proxies (symx), bounded; reference decoder; counterexample replay",
         design="DESIGN.md §3 C06"),
     "C08": dict(
@@ -133,7 +145,10 @@ CLAIMED = {
              "double-buffer sizes bound every slice assigned to that buffer, and the REAL create_dma_op / create_weights arithmetic for a "
              "buffered slice stays inside a buffer of that size with equal source/destination lengths; a second encode request with a "
              "different slicing gets a tensor describing its own slices (cache key); encode_bias packs the 80-bit record for every signed "
-             "40-bit bias / 32-bit scale / 6-bit shift and rejects out-of-range arguments.",
+             "40-bit bias / 32-bit scale / 6-bit shift and rejects out-of-range arguments; create_weights in its four tensor configurations (direct/buffered "
+             "weights x combined/stand-alone scales) with symbolic encoded ranges names the region and bytes of the tensor that holds them; the arguments "
+             "handed to the C codec (dilation axes, bit depth, traversal) per accelerator; the REAL Scheduler.propose_weight_buffering over symbolic "
+             "per-slice byte counts: every depth slice fits the SRAM buffer it is DMA-ed into and weight and scale tensors describe the recorded slices.",
         note="Partial by design: the byte content of the compressed streams (C codec, C07) is outside; what is decided is the index/offset/"
              "length bookkeeping around it. Trusted: z3, symx proxies, length-only byte-stream stand-ins. Assumes intermediate slice boundaries "
              "are multiples of the core count (established by propose_weight_buffering).",
@@ -147,8 +162,10 @@ CLAIMED = {
              "rolling buffer addresses every row of a stripe's box, through the tiles addresses_for_rolling_buffer returns, at slot "
              "(row mod buffer height) inside its storage; _avoid_nhcwb16_for_shapes keeps the brick format only when every producer/consumer shape "
              "equals the tensor's; get_region/mem_type_size/get_mem_limits_for_regions give fast scratch its own, "
-             "arena_cache_size-limited region exactly when spilling is enabled and region 0 only to permanent memory types. The weight/DMA "
-             "address arithmetic is decided under C08.",
+             "arena_cache_size-limited region exactly when spilling is enabled and region 0 only to permanent memory types; create_feature_map's strides "
+             "stay inside the tensor; the scheduler's rolling-buffer size equals the live range; weight/scale ranges name the region of the tensor that "
+             "holds them (create_weights, four configurations); an operation with fewer weight ranges than cores programs length 0 for the idle core; every "
+             "weight depth slice fits the SRAM buffer propose_weight_buffering creates for it. The remaining weight/DMA address arithmetic is decided under C08.",
         note="Partial: the composition allocator address + footprint <= published region sizes over a compiled network is outside (no "
              "end-to-end compilation in this technique); graph-level format decisions are outside. Trusted: z3, symx proxies, the tile/stride "
              "addressing rule restated in the harness.",
@@ -163,7 +180,9 @@ CLAIMED = {
              "BufferMap.get_buffer budgets for a rolling buffer equal the live range extract_live_ranges_from_schedule reserves (symbolic stripe "
              "heights, mixed dtypes); CascadeBuilder.build_cascades called twice records each call's own rolling buffer; weight "
              "double buffering: slice k uses buffer k mod n with its DMA before its stripe, and the buffer whose live range "
-             "extract_live_ranges_from_schedule keeps to the end (expression taken from its AST) is the one the last slice uses.",
+             "extract_live_ranges_from_schedule keeps to the end (expression taken from its AST) is the one the last slice uses; double_buffer_sizes "
+             "bound every (all cores') slice assigned to that buffer and propose_weight_buffering's buffers hold every slice DMA-ed into them; a "
+             "feature-map copy is elided only when source and destination are the same bytes.",
         note="Partial: per-byte last-writer tracking over emitted streams of compiled networks, live-range extraction and buffer sizing wiring "
              "over real schedules are outside. Trusted: z3, symx proxies, stand-in schedule/tensor objects, the SHRAM LUT window model. The "
              "recorded stride-3 rolling-buffer finding is reported as KNOWN-FINDING.",
